@@ -484,6 +484,9 @@ func (rr *DefaultRelationsResolver) InboundRelationsOf(toState string) (
 // graph represents a directed graph using an adjacency list.
 type graph struct {
 	vertices map[string][]string
+	// order of the first appearance of each source vertex, which keeps the sort
+	// deterministic (map iteration order is not)
+	order []string
 }
 
 // newGraph creates a new states graph.
@@ -493,6 +496,9 @@ func newGraph() *graph {
 
 // AddEdge adds a directed edge from src to dest.
 func (g *graph) AddEdge(src, dest string) {
+	if _, ok := g.vertices[src]; !ok {
+		g.order = append(g.order, src)
+	}
 	g.vertices[src] = append(g.vertices[src], dest)
 }
 
@@ -522,7 +528,7 @@ func (g *graph) TopologicalSort() ([]string, error) {
 		return nil
 	}
 
-	for node := range g.vertices {
+	for _, node := range g.order {
 		if !visited[node] {
 			if err := visit(node); err != nil {
 				return nil, err
